@@ -129,6 +129,7 @@ const (
 	kFO      = "FO"
 	kErrCls  = "errclass" // FE/RE pair
 	kSK      = "SK"
+	kHist    = "history" // HH: two messages read into ONE object, every mix of FastRead / Read must leave the same object
 	kDepth   = "depth" // FR/R pair on deeply nested unknown fields (divergences are counted, not violations)
 )
 
@@ -144,6 +145,8 @@ type check struct {
 	wantOff int    // FO
 	note    string // sub-class for statistics
 	toModel bool
+	ref     int  // history: index of the RG line of the second message on a fresh object
+	covers  bool // history: the second message carries every top-level field the first one carries
 }
 
 type lineSet struct {
@@ -275,8 +278,13 @@ func run(repo, dir string, seed uint64, cfg runCfg, keep bool) int {
 			}
 			for sidx := range u.Schema.Structs {
 				key := fmt.Sprintf("%s:%d", u.Key, sidx)
-				for _, v := range aimedValues(u.Schema, sidx) {
+				avs := aimedValues(u.Schema, sidx)
+				for _, v := range avs {
 					genOps(r, cfg, u, sidx, key, v, ls, out)
+				}
+				for i := range avs { // object reuse: every ordered pair of neighbouring aimed values
+					historyOps(u, sidx, key, avs[i], avs[(i+1)%len(avs)], ls)
+					historyOps(u, sidx, key, avs[(i+1)%len(avs)], avs[i], ls)
 				}
 			}
 		}
@@ -292,10 +300,15 @@ func run(repo, dir string, seed uint64, cfg runCfg, keep bool) int {
 			if u.Tag == "aim" {
 				nv = cfg.values * 2
 			}
+			var prev *values.Value
 			for k := 0; k < nv; k++ {
 				v := valgen.Gen(r, u.Schema, sidx, 1+r.Intn(6), vcfg)
 				out.Count(fmt.Sprintf("val.depth.%d", v.Depth()))
 				genOps(r, cfg, u, sidx, key, v, ls, out)
+				if prev != nil {
+					historyOps(u, sidx, key, prev, v, ls)
+				}
+				prev = v
 			}
 		}
 	}
@@ -790,7 +803,67 @@ func aimedValues(s *idlgen.Schema, sidx int) []*values.Value {
 		}
 		out = append(out, a, z)
 	}
+	if st.Name == "Limits" {
+		out = append(out, limitsVariants()...)
+	}
+	if st.Name == "Holder" {
+		vs := limitsVariants()
+		for k := range vs {
+			h := values.Record(vs[k], values.List(vs...), values.Map(values.Str("a"), vs[(k+1)%len(vs)], values.Str("b"), vs[(k+2)%len(vs)]), vs[(k+3)%len(vs)])
+			out = append(out, h)
+		}
+		out = append(out, values.Record(vs[0], values.List(), values.Map(), values.Nil()))
+	}
 	return out
+}
+
+// limitsVariants: objects of the aimed struct `Limits` (container fields with IDL defaults) whose containers hold a
+// subset of / something different from / nothing of the default, or are nil.
+func limitsVariants() []*values.Value {
+	S, I := values.Str, values.Int
+	return []*values.Value{
+		values.Record(values.Map(S("cpu"), I(1)), values.List(I(2)), values.Set(S("a")), values.Map(), I(1), values.Map()),
+		values.Record(values.Map(S("gpu"), I(8)), values.List(I(9), I(9)), values.Set(S("z")), values.Map(I(2), S("y")), I(2), values.Map(I(8), values.List(I(2), I(3)))),
+		values.Record(values.Map(), values.List(), values.Set(), values.Map(), I(0), values.Map()),
+		values.Record(values.Nil(), values.Nil(), values.Nil(), values.Nil(), I(3), values.Nil()),
+		values.Record(values.Map(S("cpu"), I(1), S("mem"), I(2), S("gpu"), I(8)), values.List(I(1), I(2), I(3), I(4)), values.Set(S("a"), S("b"), S("c")), values.Map(I(1), S("x"), I(2), S("y")), I(4), values.Map(I(7), values.List(I(1)), I(8), values.List())),
+	}
+}
+
+// historyOps: two messages read into ONE object (object reuse): FastRead/FastRead, Read/FastRead, FastRead/Read and
+// Read/Read must leave the same object; when the second message carries every top-level field of the first, that object
+// is the one a fresh Read of the second message builds.
+func historyOps(u *batch.UnitInfo, sidx int, key string, v1, v2 *values.Value, ls *lineSet) {
+	s := u.Schema
+	e1, err1 := refcodec.Encode(s, sidx, v1)
+	e2, err2 := refcodec.Encode(s, sidx, v2)
+	if err1 != nil || err2 != nil {
+		return
+	}
+	if _, err := refcodec.Decode(s, sidx, e1); err != nil {
+		return
+	}
+	if _, err := refcodec.Decode(s, sidx, e2); err != nil {
+		return
+	}
+	f1, _ := refcodec.Split(e1)
+	f2, _ := refcodec.Split(e2)
+	covers := true
+	for _, a := range f1 {
+		if !hasID(f2, a.ID) {
+			covers = false
+		}
+	}
+	ref := ls.add("RG "+key+" "+hx(e2), &check{class: "R", unit: u, sidx: sidx, pair: -1})
+	first := -1
+	for _, mode := range []string{"FF", "RF", "FR", "RR"} {
+		c := &check{class: kHist, unit: u, sidx: sidx, value: v2, toModel: true, pair: first, ref: ref, covers: covers, note: mode}
+		i := ls.add("HH "+key+" "+mode+" "+hx(e1)+" "+hx(e2), c)
+		if first < 0 {
+			first = i
+			c.pair = i
+		}
+	}
 }
 
 // aimedReads: fixed inputs for the aimed unit.
@@ -1011,6 +1084,17 @@ func verdict(ls *lineSet, answers []string, i int, count func(string)) (string, 
 			count("errclass.required_name_differs")
 		}
 		count("oracle.ok.errclass." + c.note + "." + cls(ans))
+	case kHist:
+		if ans == "panic" {
+			return "", "a read into a reused object panics (" + c.note + ")", answers[c.ref]
+		}
+		if ans != answers[c.pair] {
+			return "", "object reuse: " + c.note + " (F = FastRead, R = Read, two messages into one object) leaves a different object than FF", answers[c.pair]
+		}
+		if c.covers && ans != answers[c.ref] {
+			return "", "object reuse: the second message carries every field of the first, but after " + c.note + " the object differs from a fresh Read of the second message", answers[c.ref]
+		}
+		count("oracle.ok.history." + c.note)
 	case kValid, kTrunc, kCorrupt, kDepth:
 		ra := answers[c.pair]
 		if ra == "crash" && c.class == kCorrupt {
